@@ -7,9 +7,12 @@ EXPLANATION = (
     "Decided on /repo's current source: ENC (for each of the four make_string_constant encoders -- extracted on every run as a chain of char->string replacements, i.e. a homomorphism -- the composition "
     "decode_shell(quote + encode(s) + quote) = s is decided for ALL strings s by exploring the product of the encoder's per-character images with a transducer transcribing that shell's double-quote rules, "
     "including: the constant is closed exactly at its end (no dangling escape), no unescaped expansion character reaches the shell), "
-    "TEXT/SINK (every format hole whose inferred type is grammar text -- Ustr and what is derived from it without an encoder -- is reported unless it is the documented raw command body; every literal / description table is fed "
-    "through the module's encoder), SK-QUOTE (bash: in every `[[ a == b ]]` / `[[ a = b ]]` of the assembled skeleton an operand on the right that holds grammar text, command output or a typed word is double-quoted, "
-    "otherwise it is a glob pattern; eval receives only id data). "
+    "SINK (for every hole that any of the four emitters writes into a script, a raw-text taint analysis over the syntax tree -- through let bindings, iterator chains and closures, format! arguments, String buffers, "
+    "helper parameters back to their call sites -- shows that grammar text (Ustr and what is derived from it) reaches the hole only through the module's make_string_constant, except the documented raw command body; each module "
+    "really prints its literal (and description) tables through the encoder; an encoded hole sits outside double quotes in its template), "
+    "SK-QUOTE (bash, on the parsed skeleton of every flag assignment examined, with a text/clean dimension inferred for every shell variable by def-use: the right operand of every [[ = ]] / [[ == ]] / [[ != ]] expands text only inside "
+    "double quotes, otherwise it is a glob pattern -- the printf %q prefix idiom is recognised structurally; eval expands only clean values at its first level; no command argument, array element or for-list word expands a text "
+    "variable unquoted). "
     "NOT decided: that real shells implement their manuals; candidates actually shown by readline."
 )
 ASSUMPTIONS = [
@@ -48,47 +51,52 @@ def enc_rule(repo, res, rule="ENC"):
 
 
 def sink_rule(repo, res, ty, rule="SINK"):
-    """literal / description tables are fed through the encoder"""
+    """Every hole written into a script by an emitter is examined by the raw-text taint analysis (vlib/taint.py): grammar text
+    (Ustr and what is derived from it) may reach a hole only through the module's make_string_constant, except where tabled
+    (the body of _<cmd>_cmd_<id>).  USED: each module prints at least the tabled number of text-bearing holes through its
+    encoder (the literals table, and the descriptions table where the shell shows descriptions).  QCTX: the encoder adds its
+    own double quotes, so a hole fed by it must sit outside double quotes in its template."""
+    from vlib import taint as T
+
+    enc = T.Taint(repo, ty, {"make_string_constant"})
+    anyt = T.Taint(repo, ty, set())
+    floors = {"bash": 1, "fish": 2, "zsh": 2, "pwsh": 2}
+    n = 0
     for mod in RE.EMITTERS:
-        n = 0
-        for fn in repo.fns_in(mod):
-            envs = A.collect_envs(fn)
-            for c in P.find_calls(fn.body, names={"make_string_constant"}):
-                a = c["args"][0]
-                t = ty.of(a, envs.get(id(c)))
-                n += 1
-        res.check(n >= 1, rule, f"{rule}:{mod}:encoder-used", f"{n} make_string_constant call sites in {mod}", f"src/{mod}.rs")
-        # the `literals` table
-        wl = repo.fn(f"{mod}::write_literals")
-        if wl is None:
-            res.undecided(rule, f"{rule}:{mod}:write_literals", "function not found")
-            continue
-        envs = A.collect_envs(wl)
-        enc = [c for c in P.find_calls(wl.body, names={"make_string_constant"})]
-        lit_ok = False
-        descr_ok = mod == "bash"  # bash prints no descriptions
-        for c in enc:
-            p = A.resolve(c["args"][0], envs.get(id(c)))
-            s = A.show(p)
-            t = TY.strip(ty.of(c["args"][0], envs.get(id(c))))
-            if t == "Ustr":
-                if ".1" in s or "literals" in s:
-                    lit_ok = lit_ok or (".1" in s) or mod == "bash"
-                if ".2" in s or "descr" in s:
-                    descr_ok = True
-        res.check(lit_ok, rule, f"{rule}:{mod}:literals-encoded", "every element of the literals table goes through make_string_constant", wl.loc())
-        res.check(descr_ok, rule, f"{rule}:{mod}:descriptions-encoded", "every description goes through make_string_constant" if mod != "bash" else "bash emits no descriptions", wl.loc())
+        used = 0
+        seq = {}
+        for fn, s, idx, nm, e, t, env in RE.all_holes(repo, mod, ty):
+            if s.macro not in ("write", "writeln") or fn.name == "make_string_constant":
+                continue
+            n += 1
+            what = RE.hole_text(repo, fn, e)
+            k = (fn.qname, what)
+            seq[k] = seq.get(k, 0) + 1
+            key = f"{rule}:{fn.qname}:{what}" + (f"#{seq[k]}" if seq[k] > 1 else "")
+            loc = f"{fn.file}:{s.node['l']}"
+            raw = sorted(set(enc.raw(fn, e, env)))
+            if raw:
+                if (fn.qname, what) in TEXT_ALLOW:
+                    res.ok(rule, key, f"raw grammar text by design: {TEXT_ALLOW[(fn.qname, what)]}", loc)
+                else:
+                    res.bad(rule, key, f"grammar text reaches `{s.template.strip()[:50]}` without {mod}::make_string_constant: {raw[:3]}", loc)
+                continue
+            if anyt.raw(fn, e, env):
+                used += 1
+                before = "".join(p[1] for p in s.pieces[:idx] if p[0] == "lit")
+                inside = T.quote_state(before)
+                res.check(not inside, "QCTX", f"QCTX:{fn.qname}:{what}", f"encoded text hole `{what}` in `{s.template.strip()[:50]}` sits " + ("INSIDE double quotes although the encoder adds its own: the constant is closed by the encoder's opening quote" if inside else "outside double quotes; the encoder supplies them"), loc)
+                res.ok(rule, key, f"text reaches the hole only through {mod}::make_string_constant", loc)
+        res.check(used >= floors[mod], rule, f"{rule}:{mod}:USED", f"{used} holes of {mod} carry grammar text through the encoder (confirmed floor {floors[mod]}: literals" + (", descriptions)" if floors[mod] > 1 else ")"), f"src/{mod}.rs")
+    return n
 
 
 def run(repo, res, tier):
     ty = TY.Typer(repo, RE.ROARING_DIMS)
     enc_rule(repo, res)
-    n = 0
-    for mod in RE.EMITTERS:
-        n += RE.text_rule(repo, res, mod, ty, TEXT_ALLOW)
-    sink_rule(repo, res, ty)
+    n = sink_rule(repo, res, ty)
     from . import sk_bash
     sk_bash.quote_rule(repo, res, tier)
     res.floor("ENC", res.count("ENC"), 4)
-    res.floor("TEXT", n, 3)
-    res.floor("SINK", res.count("SINK"), 12)
+    res.floor("SINK-holes", n, 150)
+    res.floor("SK-QUOTE", res.count("SK-QUOTE"), 25)
